@@ -1,5 +1,6 @@
 // C14 - <bit> functions, bit-position helpers and byte-order conversions vs std <bit> / definitional arithmetic
 // (DESIGN section 4, C14).  Public tetl API only.
+//   -DC14_ROWS=0 : uint8/uint16/uint32 + byte order   -DC14_ROWS=1 : uint64/unsigned long long + byteswap   (split for parallel compiles)
 #include "vf.hpp"
 #include "vf_contract.hpp"
 
@@ -13,6 +14,10 @@
 #include <array>
 #include <bit>
 #include <climits>
+
+#ifndef C14_ROWS
+    #define C14_ROWS 0
+#endif
 
 namespace {
 using namespace c14;
@@ -128,7 +133,7 @@ std::vector<int> const& rot_counts()
                  4096, 4097, 65535, 65536, INT_MAX - 64, INT_MAX - 63, INT_MAX - 1, INT_MAX}) {
             r.push_back(s);
         }
-        return finish(std::move(r));
+        return finish_t(std::move(r));
     }();
     return v;
 }
@@ -216,7 +221,6 @@ constexpr unsigned long long bitmask(T pos)
         static R impl(T w, T pos) { return IMPLX; }                                                                    \
         static char const* sit(T w, T pos) { return posclass(w, pos); }                                                \
     }
-using ull = unsigned long long;
 C14_POS(SetBit, "set_bit", "set_bit(word,pos)", i128, i128(T(ull(w) | bitmask(pos))), i128(etl::set_bit(w, pos)));
 C14_POS(SetBitTrue, "set_bit[value=true]", "set_bit(word,pos,true)", i128, i128(T(ull(w) | bitmask(pos))), i128(etl::set_bit(w, pos, true)));
 C14_POS(SetBitFalse, "set_bit[value=false]", "set_bit(word,pos,false)", i128, i128(T(ull(w) & ~bitmask(pos))), i128(etl::set_bit(w, pos, false)));
@@ -318,9 +322,16 @@ vf::Spec spec(vf::Tier t) { return make_spec(t, 2, 64); }
 
 void c14::register_all()
 {
+#if C14_ROWS == 0
     reg_unsigned<unsigned char>();
     reg_unsigned<unsigned short>();
     reg_unsigned<unsigned>();
+    reg_net<char>();
+    reg_net<etl::int8_t>();
+    reg_net<etl::uint8_t>();
+    reg_net<etl::uint16_t>();
+    reg_net<etl::uint32_t>();
+#else
     reg_unsigned<unsigned long>();
     reg_unsigned<unsigned long long>();
     reg_unary<Byteswap<signed char>>();
@@ -333,11 +344,9 @@ void c14::register_all()
     reg_unary<Byteswap<unsigned long>>();
     reg_unary<Byteswap<long long>>();
     reg_unary<Byteswap<unsigned long long>>();
-    reg_net<char>();
-    reg_net<etl::int8_t>();
-    reg_net<etl::uint8_t>();
-    reg_net<etl::uint16_t>();
-    reg_net<etl::uint32_t>();
+#endif
 }
 
-VF_MAIN("C14", "C14_bit", spec, c14::run_case)
+#define C14_STR2(x) #x
+#define C14_STR(x) C14_STR2(x)
+VF_MAIN("C14", "C14_bit_" C14_STR(C14_ROWS), spec, c14::run_case)
